@@ -128,7 +128,8 @@ class Lin:
         if t and t[0] == "mut" and t[1][0].endswith("Vec::<T, A>::resize") and len(t) > 5 and t[5]:
             return self.of_value(t[5][0])        # after v.resize(n, x): len(v) == n
         if t and t[0] == "mut" and (t[1][0].endswith("::index_mut") or t[1][0].endswith("::read") or t[1][0].endswith("::read_exact")
-                                    or t[1][0].endswith("::copy_from_slice")):
+                                    or t[1][0].endswith("::copy_from_slice") or t[1][0].endswith("::move_index")
+                                    or t[1][0].endswith("::swap_indices") or t[1][0].endswith("::sort") or t[1][0].endswith("::reverse")):
             return self.len_of(t[3])             # mutation through a borrowed slice keeps its length
         if t and t[0] == "call" and len(t[2]) >= 1 and (t[1].endswith("::Deref>::deref") or t[1].endswith("AsRef::as_ref") or t[1].endswith("::as_slice")
                                                     or t[1].endswith("AsRef<T>>::as_ref") or t[1].endswith("::as_bytes")):
@@ -187,6 +188,11 @@ class Lin:
                         out.append(lin_add(const(1), b, -1))
                     elif not b[0] and b[1] == 0:
                         out.append(lin_add(const(1), a, -1))
+            elif k[0] == "discr" and c == ("eq", 1) and len(k) > 2 and k[2] == "std::option::Option" and isinstance(k[1], tuple) \
+                    and k[1] and k[1][0] == "call" and len(k[1]) > 2 and k[1][2] \
+                    and k[1][1].split("::")[-1] in ("get_index_of", "get_full", "first", "last", "get_index"):
+                # a look-up that found something: the container is not empty
+                out.append(lin_add(const(1), self.len_of(self.expand(k[1][2][0])), -1))
             elif k[0] in ("call", "field", "init", "arg", "len", "bin", "cast", "index") :
                 la = self.of_term(k)
                 if c[0] == "eq" and isinstance(c[1], int):
@@ -224,6 +230,12 @@ def aux_facts(lin, forms):
                     out.append(lin_add(lin_add(atom(a), ln, -1), const(1)))
                     work.extend(ln[0])
                 break
+        if a and a[0] == "field" and a[2] == 0 and isinstance(a[1], tuple) and a[1] and a[1][0] == "call" and len(a[1]) > 2 \
+                and a[1][1].split("::")[-1] in ("get_index_of",) and "IndexMap" in a[1][1] and a[1][2]:
+            # Some(i) = map.get_index_of(k): i < len(map)
+            ln = lin.len_of(lin.expand(a[1][2][0]))
+            out.append(lin_add(lin_add(atom(a), ln, -1), const(1)))
+            work.extend(ln[0])
         if a and a[0] == "call" and len(a) > 2:
             nm = a[1].split("::")[-1]
             args = [x for x in a[2] if not (isinstance(x, tuple) and x and x[0] == "targs")]
